@@ -18,17 +18,109 @@ def regen(ctx):
     return fails
 
 
+def _broken_theorems(ctx):
+    """Names the lemma(s) at which `lake build` failed and the C19_* theorems that rest on them (textual dependency
+    closure over Hive/Props/C19.lean)."""
+    import re
+    locs = []
+    for f in ctx.obligation_failures:
+        if isinstance(f, dict) and f.get("kind") == "lake-build":
+            for m in re.finditer(r"error: (Hive/[\w/]+\.lean):(\d+):\d+", f.get("detail", "")):
+                locs.append((m.group(1), int(m.group(2))))
+    lemmas = []
+    for path, line in locs:
+        try:
+            src = open(os.path.join(checklib.LEAN, path)).read().split("\n")
+        except OSError:
+            continue
+        for i in range(min(line, len(src)) - 1, -1, -1):
+            m = re.match(r"\s*(?:private\s+)?(?:theorem|lemma|def|example)\s+(\w+)?", src[i])
+            if m:
+                name = m.group(1) or "example"
+                if (name, path) not in [(n, p_) for n, p_, _ in lemmas]:
+                    lemmas.append((name, path, i + 1))
+                break
+    if not lemmas:
+        return None
+    try:
+        props = open(os.path.join(checklib.LEAN, "Hive", "Props", "C19.lean")).read()
+    except OSError:
+        props = ""
+    blocks = {}
+    for m in re.finditer(r"^theorem\s+(C19_\w+)(.*?)(?=^theorem\s|^def\s|^example|^/-[-!]|^end\s|^section\s|\Z)", props, re.M | re.S):
+        blocks[m.group(1)] = m.group(2)
+    broken = {n for n, _, _ in lemmas}
+    changed = True
+    while changed:
+        changed = False
+        for name, body in blocks.items():
+            if name not in broken and any(re.search(r"\b" + re.escape(b) + r"\b", body) for b in broken):
+                broken.add(name)
+                changed = True
+    return {"first_failing": [f"{n} ({p_}:{l})" for n, p_, l in lemmas],
+            "theorems_resting_on_them": sorted(b for b in broken if b.startswith("C19_")),
+            "note": "lake stops at the first module that fails; modules that import it (later proofs) are not re-checked in this run"}
+
+
+def post(ctx, tie):
+    """Counterexample search in the regenerated MODEL next to the one on the implementation: the `search` request
+    lines (harness/c19/search.go, Hive/Model/SafeMathSearch.lean) enumerate the same boundary values in the same order on
+    both sides; their answers are put side by side into the evidence, and into the replay files when a proof broke."""
+    outdir = os.path.join(ctx.scratch, "out0")
+    try:
+        ops = open(os.path.join(outdir, "ops.txt")).read().split("\n")
+        impl = open(os.path.join(outdir, "impl.txt")).read().split("\n")
+    except OSError:
+        return
+    idx = [i for i, l in enumerate(ops) if l.startswith("search ") and i < len(impl)]
+    drv = os.path.join(checklib.LEAN, ".lake", "build", "bin", "drv_c19")
+    if not idx or not os.path.exists(drv):
+        return
+    if not ctx.obligation_failures and not tie.get("mismatches") and all(impl[i].startswith("none ") for i in idx):
+        # the differential comparison has already shown that the driver answered every search line like the implementation
+        ctx.notes.append(f"model search: {len(idx)} boundary enumerations run over the regenerated model and over the implementation, "
+                         f"{sum(int(impl[i].split()[1]) for i in idx)} evaluations each; no counterexample on either side")
+        return
+    try:
+        p = subprocess.run([drv], input=("\n".join(ops[i] for i in idx) + "\n").encode(), stdout=subprocess.PIPE, stderr=subprocess.PIPE, timeout=900)
+    except subprocess.TimeoutExpired:
+        ctx.notes.append("model search: driver timed out")
+        return
+    model = p.stdout.decode("utf-8", "replace").split("\n")
+    rows = [(ops[i], impl[i], model[j] if j < len(model) else "(no answer)") for j, i in enumerate(idx)]
+    hits = [r for r in rows if not r[1].startswith("none ") or not r[2].startswith("none ")]
+    ctx.notes.append(f"model search: {len(rows)} boundary enumerations run over the regenerated model and over the implementation; "
+                     f"{sum(1 for r in rows if r[2].startswith('cex'))} found a counterexample in the model, "
+                     f"{sum(1 for r in rows if r[1].startswith('cex'))} in the implementation")
+    bt = _broken_theorems(ctx)
+    if bt:
+        ctx.obligation_failures.append({"kind": "broken-theorems", "detail": bt})
+    if hits:
+        ctx.obligation_failures.append({"kind": "counterexample-search", "detail": {
+            "what": "first counterexample of each boundary enumeration (`cex <number of counterexamples> <operands> got <answer> want <exact answer>`): "
+                    "found by evaluating the regenerated Lean model against the Lean specification | found by running the real functions against math/big",
+            "side_by_side": [{"search": r[0], "model_found": r[2], "implementation_found": r[1], "agree": r[1] == r[2]} for r in hits[:24]]}})
+        for r in hits[:6]:
+            ctx.log(f"search `{r[0]}`: model-found {r[2]!r} | implementation-found {r[1]!r}")
+
+
 SPEC = {
-    "lean_props": "Hive.Props.C19",
+    # one Props module per function (each rests only on the proof about that function: a change of safe_math.go breaks
+    # exactly the modules of the functions whose behaviour it changes) + the module of the combined statements
+    "lean_props": ["Hive.Props.C19", "Hive.Props.C19Add", "Hive.Props.C19Sub", "Hive.Props.C19Mul", "Hive.Props.C19Div", "Hive.Props.C19Shl",
+                   "Hive.Props.C19MulU64", "Hive.Props.C19MulI64", "Hive.Props.C19MulDiv"],
     "lean_namespace": ["Hive.GoInt", "Hive.Gen.SafeMath"],
     "driver": "drv_c19",
     "harness": "c19",
     "regen": regen,
+    "post": post,
     "theorems": ["C19_add_exact", "C19_sub_exact", "C19_mul_exact", "C19_div_exact", "C19_shl_exact",
                  "C19_mulU64_exact", "C19_mulI64_exact", "C19_mulDiv64_exact", "C19_all_translated", "C19_exact_spec",
                  "C19_never_wraps", "C19_never_spurious", "C19_shl_clauses", "C19_mul_twins", "C19_mulDiv64_clauses",
                  "C19_go_types_covered", "C19_statement_holds", "C19_wrap_spec", "C19_mul64_spec", "C19_div64_spec",
-                 "C19_error_identity", "C19_sentinels_distinct", "C19_ierrors_wrappers", "C19_error_sites_cover"],
+                 "C19_error_identity", "C19_sentinels_distinct", "C19_ierrors_wrappers", "C19_error_sites_cover"] +
+                [f"C19_{f}_{c}" for f in ("add", "sub", "mul", "div", "shl", "mulU64", "mulI64") for c in ("never_wraps", "never_spurious", "error_iff")] +
+                ["C19_mulDiv64_never_spurious"],
     "trusted_base": ["translator harness/tools/translate-safemath (go/ast -> Lean, ~1000 lines incl. the error-expression renderer), cross-checked on every run by executing the generated definitions against the real functions",
                      "Go integer semantics Hive/Base/GoInt.lean + Hive/Model/SafeMathOps.lean (wrap-around, truncated division and remainder, shifts, & | ^ &^ and complement, bits.Mul64/Div64; specification theorems C19_wrap_spec / mul64_spec / div64_spec), validated against the raw Go operators exhaustively for 8-bit types and by samples for wider types",
                      "Go toolchain, compiled Lean driver"],
